@@ -55,7 +55,31 @@ func mutate(r *rng.R, obj client.Object, namespaces []string) (client.Object, st
 		return o, "annotation"
 	}
 	switch x := o.(type) {
+	case *ngfAPI.NginxGateway:
+		x.Spec.Logging = &ngfAPI.Logging{Level: ptr(ngfAPI.ControllerLogLevel(rng.Pick(r, []string{"info", "debug", "error", "verbose"})))}
+		return x, "ng-loglevel"
 	case *apiv1.Service:
+		if p.KeyOf(x) == ngfSvcKey && r.Chance(35, 100) {
+			// the role the handler's filter is there for: the addresses of the Gateway status
+			switch r.Intn(3) {
+			case 0:
+				x.Spec.Type = apiv1.ServiceTypeLoadBalancer
+				x.Status.LoadBalancer.Ingress = []apiv1.LoadBalancerIngress{{IP: fmt.Sprintf("203.0.113.%d", r.Range(1, 250))}}
+				return x, "svc-lb-ingress"
+			case 1:
+				x.Spec.Type = apiv1.ServiceTypeLoadBalancer
+				x.Status.LoadBalancer.Ingress = append(x.Status.LoadBalancer.Ingress, apiv1.LoadBalancerIngress{Hostname: fmt.Sprintf("lb%d.example.com", r.Intn(9))})
+				return x, "svc-lb-ingress"
+			default:
+				if x.Spec.Type == apiv1.ServiceTypeLoadBalancer {
+					x.Spec.Type, x.Status.LoadBalancer.Ingress = apiv1.ServiceTypeClusterIP, nil
+				} else {
+					x.Spec.Type = apiv1.ServiceTypeLoadBalancer
+					x.Status.LoadBalancer.Ingress = []apiv1.LoadBalancerIngress{{IP: "203.0.113.10"}}
+				}
+				return x, "svc-lb-type"
+			}
+		}
 		if len(x.Spec.Ports) == 0 {
 			x.Spec.Ports = []apiv1.ServicePort{{Name: "p80", Port: 80, TargetPort: intstr.FromInt32(8080), Protocol: apiv1.ProtocolTCP}}
 			return x, "svc-add-port"
@@ -287,6 +311,9 @@ func mutate(r *rng.R, obj client.Object, namespaces []string) (client.Object, st
 					if r.Bool() {
 						br := &x.Spec.Rules[i].BackendRefs[j]
 						br.Name = gatewayv1.ObjectName(rng.Pick(r, svcNames))
+						if x.Namespace == podConfig.Namespace && r.Bool() {
+							br.Name = gatewayv1.ObjectName(podConfig.ServiceName)
+						}
 						if r.Chance(30, 100) {
 							br.Namespace = ptr(gatewayv1.Namespace(rng.Pick(r, namespaces)))
 						}
@@ -454,6 +481,40 @@ func Generate(r *rng.R, maxOps int) *History {
 		h.Tags["obs-multitarget"]++
 	}
 
+	if r.Chance(45, 100) {
+		// the objects the handler's objectFilters single out, in ordinary roles: the front Service of NGF as the
+		// backend of a route, the NginxGateway control-plane configuration
+		nsNGF, ngfSvc, esNGF, routeLoop, ngfCfg := ngfObjects()
+		objs = append(objs, nsNGF, ngfSvc)
+		h.Tags["special:front-svc"]++
+		if r.Chance(30, 100) {
+			ngfSvc.Spec.Type, ngfSvc.Status.LoadBalancer.Ingress = apiv1.ServiceTypeClusterIP, nil
+		}
+		if r.Chance(75, 100) {
+			for _, o := range objs {
+				if gw, ok := o.(*gatewayv1.Gateway); ok && r.Bool() {
+					routeLoop.Spec.ParentRefs = []gatewayv1.ParentReference{p.ParentRef(gw.Namespace, gw.Name, "")}
+				}
+			}
+			objs = append(objs, routeLoop, esNGF)
+			h.Tags["special:front-svc-as-backend"]++
+		}
+		if r.Chance(65, 100) {
+			objs = append(objs, ngfCfg)
+			h.Tags["special:control-config"]++
+		}
+		if r.Chance(15, 100) {
+			other := &ngfAPI.NginxGateway{ObjectMeta: p.Meta(controlConfig.Namespace, "other-config", 14)}
+			other.Spec.Logging = &ngfAPI.Logging{Level: ptr(ngfAPI.ControllerLogLevelDebug)}
+			objs = append(objs, other)
+			h.Tags["special:foreign-control-config"]++
+		}
+		if r.Chance(15, 100) {
+			objs = append(objs, p.TLSSecret(podConfig.Namespace, podConfig.ServiceName, 2))
+			h.Tags["special:secret-named-like-front-svc"]++
+		}
+	}
+
 	// split: some objects exist before the controller starts, the others are created by the history
 	var pool []client.Object
 	for _, o := range objs {
@@ -482,6 +543,7 @@ func Generate(r *rng.R, maxOps int) *History {
 		"EndpointSlice": 6, "Service": 5, "Secret": 3, "ReferenceGrant": 3, "Namespace": 3, "GatewayClass": 3,
 		"Gateway": 3, "HTTPRoute": 4, "GRPCRoute": 2, "TLSRoute": 2, "BackendTLSPolicy": 2, "ConfigMap": 2,
 		"ClientSettingsPolicy": 4, "UpstreamSettingsPolicy": 3, "ObservabilityPolicy": 4, "NginxProxy": 2,
+		"NginxGateway": 3,
 	}
 	pickPresent := func() client.Object {
 		var keys []p.Key
@@ -490,6 +552,9 @@ func Generate(r *rng.R, maxOps int) *History {
 			w := weights[k.Kind]
 			if hot[k] {
 				w *= 4 // dependency edges: objects some route / listener / policy points at
+			}
+			if k == ngfSvcKey {
+				w *= 3 // the filtered Service: deletes, re-creations, port edits, status edits
 			}
 			for i := 0; i < w; i++ {
 				keys = append(keys, k)
